@@ -313,6 +313,11 @@ func c15Precedence(c *ctx, r *rand.Rand, o c15Opt, v1, v2 string, xa []string) {
 			}
 			set(c15Sources4[lo], v2)
 			set(c15Sources4[hi], v1)
+			// precedence must not depend on the order of the entries in the environment block or of the arguments
+			r.Shuffle(len(env), func(i, j int) { env[i], env[j] = env[j], env[i] })
+			if len(env) == 2 && r.Intn(2) == 0 {
+				env[0], env[1] = env[1], env[0]
+			}
 			got := c15Load(c, "none", o, "", r, args, env, props)
 			c.R.Eval(1)
 			c.R.Nontrivial(o.Name + "|" + v1 + "|" + v2 + "|" + c15Sources4[hi] + ">" + c15Sources4[lo])
